@@ -50,7 +50,7 @@ def common_run(cmd, text):
 
 def first_diff(script, hl, ml):
     for j, (l, h, m) in enumerate(zip(script, hl, ml)):
-        if l == "updlog":
+        if l == "updlog" and h != "SKIPPED":
             hu = h.split(" chg=")[0] if h.startswith("upd=") else h
             if hu != m: return j
     return None
